@@ -2,7 +2,9 @@ package main
 
 // sub-harness `config` (C15): configuration sources merge in loader order; adding a source drops nothing.
 //
-//	scenario := ["CF"] opt* ("IN" opt*)* "|" path*
+//	scenario := ["CF" | "OA" n (pathhex node)^n] opt* ("IN" opt*)* "|" path*
+//	            `OA` = the command line of the PROCESS holds these n `--app.config=path=value` arguments (os.Args is set for
+//	            the duration of the scenario): they are what the container's own default ArgsLoader(os.Args) reads
 //	opt      := "SL" n loader^n   app.SetConfigLoader(…)        | "AL" n loader^n   app.AddConfigLoader(…)
 //	          | "CA" n loader^n   option calling s.Configure.AddLoaders(…)
 //	          | "SC" n loader^n   app.SetConfigure(fresh configure holding the loaders)
@@ -32,7 +34,12 @@ package main
 // About a key that only a source REMOVED by a later set-type call supplied (the binder has no reset) the property
 // says nothing and the oracle demands nothing; a key no source ever supplied shows nothing.
 // The container's default ArgsLoader(os.Args) sees the harness's own command line, which never holds an
-// `--app.config` argument, so it contributes nothing (the model's defaultLoader).
+// `--app.config` argument, so it contributes nothing (the model's defaultLoader) — unless the line starts with `OA`
+// (tag `cmdline`): then os.Args is replaced, for the duration of the scenario, by a command line holding the given
+// `--app.config=path=value` arguments (half of them before, half after a positional argument, plus an unrelated flag
+// behind it), and the default ArgsLoader is a source like any other: it is the loader every new App is born with, i.e.
+// the FIRST loader that was added; every non-file loader added by an option comes later in the loader sequence and
+// wins on a shared key, files come before it and lose (loader #0 in the oracle's messages, marker key m0).
 //
 // Oracles (on the real observations only; loader sequence and effective loader list computed from the
 // property's wording, not from the model):
@@ -164,6 +171,13 @@ func (l *cloader) toks(out *[]string) {
 func cfgScn(opts []copt, paths []string) string {
 	var t []string
 	for _, o := range opts {
+		if o.op == "OA" {
+			var lt []string
+			o.ls[0].toks(&lt)
+			t = append(t, "OA")
+			t = append(t, lt[1:]...) // without the leading `a`
+			continue
+		}
 		if o.op == "SF" || o.op == "IN" || o.op == "CF" {
 			t = append(t, o.op)
 		} else {
@@ -300,6 +314,19 @@ func cfgParse(scn string) ([]copt, []string, bool) {
 			if len(opts) != 0 {
 				c.bad = true
 			}
+		case "OA":
+			if len(opts) != 0 {
+				c.bad = true
+			}
+			l := &cloader{kind: "a", out: 'D', id: 0}
+			for k := c.num(); k > 0 && !c.bad; k-- {
+				p, err := hx.UnHex(c.next())
+				if err != nil {
+					c.bad = true
+				}
+				l.pairs = append(l.pairs, cpair{p, c.node()})
+			}
+			o.ls = []*cloader{l} // loader #0: not one of the numbered loaders of the line
 		case "IN":
 		case "SF":
 			o.ls = []*cloader{c.loader()}
@@ -576,6 +603,7 @@ func cfgSplit(opts []copt) (bare bool, phases [][]copt) {
 		switch o.op {
 		case "CF":
 			bare = true
+		case "OA":
 		case "IN":
 			phases = append(phases, nil)
 		default:
@@ -583,6 +611,32 @@ func cfgSplit(opts []copt) (bare bool, phases [][]copt) {
 		}
 	}
 	return bare, phases
+}
+
+// cfgCmdline: the loader the default ArgsLoader(os.Args) of a new App is under this line's command line (`OA`), nil
+// when the line has none (the harness's own command line: no --app.config argument, an empty source)
+func cfgCmdline(opts []copt) *cloader {
+	if len(opts) > 0 && opts[0].op == "OA" {
+		return opts[0].ls[0]
+	}
+	return nil
+}
+
+// cfgOsArgs: the process command line of an `OA` line: the first half of the --app.config arguments, a positional
+// argument (flag.Parse, which app.NewApp defers, stops there), the other half and an unrelated flag
+func cfgOsArgs(l *cloader) []string {
+	args := []string{"prog"}
+	half := (len(l.pairs) + 1) / 2
+	for i, p := range l.pairs {
+		if i == half {
+			args = append(args, "positional")
+		}
+		args = append(args, "--app.config="+p.path+"="+argText(p.val))
+	}
+	if len(l.pairs) <= half {
+		args = append(args, "positional")
+	}
+	return append(args, "--other=1")
 }
 
 // one option of a line with its real loader values: as an App option and as a call on a bare Configure
@@ -595,6 +649,11 @@ func cfgRun(env *cfgEnv, opts []copt, paths []string, tags []string, w *hx.Write
 	c := hx.Case{Scn: cfgScn(opts, paths), Tags: tags}
 	env.objs, env.paths = map[int]configure.Loader{}, map[int]string{}
 	bare, phases := cfgSplit(opts)
+	if cl := cfgCmdline(opts); cl != nil {
+		saved := os.Args
+		os.Args = cfgOsArgs(cl)
+		defer func() { os.Args = saved }()
+	}
 	ropts := make([][]cfgRealOpt, len(phases))
 	for k, ph := range phases {
 		for _, o := range ph {
@@ -815,6 +874,8 @@ func cfgApply(cur []*cloader, o copt, beforeAdd map[int]bool) []*cloader {
 	switch o.op {
 	case "IN", "CF":
 		return cur
+	case "OA": // the loader a new App is born with: the first one of the list
+		return append([]*cloader{}, o.ls...)
 	case "SL", "SC":
 		return append([]*cloader{}, o.ls...)
 	}
@@ -856,6 +917,9 @@ func cfgOrder(cur []*cloader) []*cloader {
 func cfgOracle(opts []copt, paths []string, gots [][]string, obs []string, panText string) string {
 	_, phases := cfgSplit(opts)
 	var cur []*cloader
+	if cl := cfgCmdline(opts); cl != nil {
+		cur = []*cloader{cl}
+	}
 	beforeAdd := map[int]bool{}
 	var hist []*cfgDocView
 	var histLoader []*cloader
@@ -1086,6 +1150,13 @@ func cfgCorpus(w *hx.Writer) {
 		}
 		cfgRun(env, opts, paths, []string{"corpus"}, w)
 	}
+	for _, scn := range cfgCmdlineCorpus() {
+		opts, paths, ok := cfgParse(scn)
+		if !ok {
+			panic("bad corpus line: " + scn)
+		}
+		cfgRun(env, opts, paths, []string{"corpus", "cmdline"}, w)
+	}
 	for _, scn := range cfgManyCorpus() {
 		opts, paths, ok := cfgParse(scn)
 		if !ok {
@@ -1141,6 +1212,45 @@ func cfgMultiCorpus() []string {
 		"SF f " + two("a", "1", "b", "2") + " SF f " + two("a", "9", "c", "3") + " SF ~ 1 | 61 62 63 -",
 		"SF f " + two("a", "1", "b", "2") + " SL 1 r " + two("a", "9", "c", "3") + " SF ~ 1 | 61 62 63 -",
 		"SF f " + two("a", "1", "b", "2") + " SC 1 r " + two("a", "9", "c", "3") + " SF ~ 1 | 61 62 63 -",
+	}
+}
+
+// cfgCmdlineCorpus: the process is started with `--app.config` arguments (`OA`): the default ArgsLoader of a new App is
+// a source with content.  It is the first loader added, so files come before it and lose, every non-file loader added
+// by an option comes after it and wins on a shared key; keys only the command line supplies stay visible.
+func cfgCmdlineCorpus() []string {
+	h := hx.Hex
+	P := func(s string) string { return "P" + h(s) }
+	cmd := "OA 3 " + h("server.port") + " " + P("1111") + " " + h("server.name") + " " + P("cli") + " " + h("m0") + " " + P("0")
+	raw := fmt.Sprintf("M 2 %s M 2 %s %s %s %s %s %s", h("server"), h("port"), P("2222"), h("host"), P("h.example"), h("m1"), P("1"))
+	file := fmt.Sprintf("M 2 %s M 3 %s %s %s %s %s %s %s %s", h("server"), h("port"), P("3333"), h("name"), P("file"), h("mode"), P("from-file"), h("m2"), P("2"))
+	q := " | " + strings.Join([]string{h("server.port"), h("server.name"), h("server.host"), h("server.mode"), h("m0"), h("m1"), h("m2"), h("server"), "-"}, " ")
+	return []string{
+		// the command line alone; command line, then a raw loader added by option (the raw loader wins on server.port)
+		cmd + q,
+		cmd + " AL 1 r " + raw + q,
+		cmd + " CA 1 r " + raw + q,
+		// file, command line, raw: the command line beats the file, the raw loader beats both
+		cmd + " SF f " + file + " AL 1 r " + raw + q,
+		cmd + " AL 1 r " + raw + " SF f " + file + q,
+		cmd + " SF f " + file + q,
+		// an ArgsLoader the program adds itself comes after the process command line
+		cmd + " AL 1 a 2 " + h("server.port") + " " + P("4444") + " " + h("m1") + " " + P("1") + q,
+		// ordered and priority loaders come before the command line whenever they are added
+		cmd + " AL 2 o 1 " + raw + " p -1 " + file + q,
+		// set-type options replace the list the App was born with (SetConfigLoader) / the whole Configure (SetConfigure)
+		cmd + " SL 1 r " + raw + q,
+		cmd + " AL 1 r " + raw + " SC 1 f " + file + q,
+		cmd + " SL 0" + q,
+		// histories: sources added to the running App keep coming after the command line
+		cmd + " IN AL 1 r " + raw + q,
+		cmd + " AL 1 r " + raw + " IN SF f " + file + " IN" + q,
+		cmd + " SF f " + file + " IN CA 1 r " + raw + q,
+		// dotted command-line keys against sections, a list value, a quoted value, a repeated argument
+		"OA 4 " + h("a.b") + " " + P("1") + " " + h("a.c") + " Q" + h("5") + " " + h("q") + " L 2 P31 P78 " + h("a.b") + " " + P("2") +
+			" AL 1 r M 2 61 M 2 62 P39 64 P34 71 P37 | 612e62 612e63 612e64 71 61 -",
+		// the command line holds a scalar where a later loader holds a section: replaced
+		"OA 1 " + h("a") + " " + P("1") + " AL 1 r M 1 61 M 1 62 P32 | 61 612e62 -",
 	}
 }
 
@@ -2052,6 +2162,142 @@ func cfgGenMulti(r *hx.Rng) ([]copt, []string, []string) {
 	return opts, paths, uniq
 }
 
+// cfgAddCmdline: about one generated App line in three gets a process command line (`OA`, tag `cmdline`): 1-4
+// `--app.config` arguments on leaf paths that loaders of the line supply as well (each with a value of its own),
+// sometimes a small random tree next to them, and the marker m0.  The choice is drawn from a PRNG seeded by the line
+// itself, so the lines without a command line are the ones the generators above produce.  Tag `cmdline-shared-plain`:
+// the command line is in the effective loader list and a non-file, none-ordered loader behind it in the loader sequence
+// supplies one of its leaf paths with another value (the later loader must win).
+func cfgAddCmdline(opts []copt, paths, tags []string) ([]copt, []string, []string) {
+	if len(opts) > 0 && opts[0].op == "CF" {
+		return opts, paths, tags
+	}
+	h := fnv.New64a()
+	h.Write([]byte(cfgScn(opts, paths)))
+	r := hx.NewRng(h.Sum64())
+	if !r.P(1, 3) {
+		return opts, paths, tags
+	}
+	var all []*cloader
+	seenL := map[*cloader]bool{}
+	for _, o := range opts {
+		for _, l := range o.ls {
+			if !seenL[l] {
+				seenL[l] = true
+				all = append(all, l)
+			}
+		}
+	}
+	cl := &cloader{kind: "a", out: 'D', id: 0}
+	g := &cfgGenSt{r: r, role: map[string]byte{}, tags: map[string]bool{}}
+	used := map[string]bool{}
+	try := func(path string, val *cnode) {
+		path = strings.ToLower(path)
+		if used[path] || strings.HasPrefix(path, "m") && len(path) > 1 && path[1] >= '0' && path[1] <= '9' {
+			return
+		}
+		if _, ok := argsTree(append(append([]cpair{}, cl.pairs...), cpair{path, val})); !ok {
+			return
+		}
+		// a path below or above one already given would change that one's role inside this one loader
+		for q := range used {
+			if strings.HasPrefix(q, path+".") || strings.HasPrefix(path, q+".") {
+				return
+			}
+		}
+		used[path] = true
+		cl.pairs = append(cl.pairs, cpair{path, val})
+	}
+	own := func(k int) *cnode {
+		if r.P(1, 4) {
+			return g.leaf(true, 0)
+		}
+		return &cnode{kind: 'P', text: "c" + strconv.Itoa(k)}
+	}
+	if len(all) > 0 {
+		for k := 1 + r.Intn(4); k > 0; k-- {
+			lv := cfgLeaves(all[r.Intn(len(all))])
+			if len(lv) == 0 {
+				continue
+			}
+			try(lv[r.Intn(len(lv))].path, own(k))
+		}
+	}
+	if len(cl.pairs) == 0 || r.P(1, 3) {
+		var ps []cpair
+		flattenPairs(g.mapNode("", 0, true), "", &ps)
+		for _, p := range ps {
+			try(p.path, p.val)
+		}
+	}
+	if !r.P(1, 12) {
+		cl.pairs = append(cl.pairs, cpair{"m0", &cnode{kind: 'P', text: "0"}})
+	}
+	if len(cl.pairs) == 0 {
+		return opts, paths, tags
+	}
+	opts = append([]copt{{op: "OA", ls: []*cloader{cl}}}, opts...)
+	// query paths: the command line's own, before the final ""
+	seen := map[string]bool{}
+	for _, p := range paths {
+		seen[strings.ToLower(p)] = true
+	}
+	var extra []string
+	if t, ok := argsTree(cl.pairs); ok {
+		collectPaths(t, "", func(p string) {
+			if !seen[strings.ToLower(p)] {
+				seen[strings.ToLower(p)] = true
+				extra = append(extra, p)
+			}
+		})
+	}
+	if n := len(paths); n > 0 && paths[n-1] == "" {
+		paths = append(append(append([]string{}, paths[:n-1]...), extra...), "")
+	} else {
+		paths = append(append([]string{}, paths...), extra...)
+	}
+	tags = append(append([]string{}, tags...), "cmdline")
+	// is the command line in the effective list with a later plain loader disagreeing on one of its leaves?
+	seq, _ := cfgSeq(opts)
+	if vc := cfgViewOfLoader(cl); vc != nil {
+		after := false
+		for _, l := range seq {
+			if l == cl {
+				after = true
+				continue
+			}
+			if !after {
+				continue
+			}
+			if vl := cfgViewOfLoader(l); vl != nil {
+				for p, a := range vc.leaf {
+					if b, ok := vl.leaf[p]; ok && a != b {
+						tags = append(tags, "cmdline-shared-plain")
+						after = false
+						break
+					}
+				}
+			}
+		}
+		for _, x := range seq {
+			if x == cl {
+				tags = append(tags, "cmdline-effective")
+			}
+		}
+	}
+	sort.Strings(tags)
+	var uniq []string
+	for j, t := range tags {
+		if t == "trivial" { // the command line is a second source
+			continue
+		}
+		if j == 0 || t != tags[j-1] {
+			uniq = append(uniq, t)
+		}
+	}
+	return opts, paths, uniq
+}
+
 func cfgGen(rng *hx.Rng, n int, tier string, w *hx.Writer) {
 	for _, a := range os.Args {
 		if strings.HasPrefix(a, "--app.config") {
@@ -2071,6 +2317,7 @@ func cfgGen(rng *hx.Rng, n int, tier string, w *hx.Writer) {
 		} else {
 			opts, paths, tags = cfgGenCase(r)
 		}
+		opts, paths, tags = cfgAddCmdline(opts, paths, tags)
 		cfgRun(env, opts, paths, tags, w)
 		if i%200 == 199 {
 			env.close()
